@@ -1133,3 +1133,145 @@ def check_assignments(ctx, tag, n):
     ctx.coverage['assignment_verdicts'] = stats
     ctx.coverage['evaluations'] += len(texts) + len(ops)
     return stats.get('PLAgree', 0)
+
+
+# ------------------------------------------------------------------ function calls: clauses with calls on the right (CallParse.clause_c)
+CC_HEADER = ('From Coq Require Import String ZArith NArith List.\nFrom GV.Model Require Import Ast.\nFrom GV.Model Require Import ValueParse QueryParse OpParse ClauseParse CnfParse FilterParse ClauseFParse LetParse CallParse.\n'
+             'Import ListNotations.\n')
+
+
+def impl_value_term(w):
+    if w[0] == 'LValue':
+        try:
+            return '(IVLit %s)' % pv_lit_term(w[1])
+        except ct.TranslateError:
+            return 'IVOther'
+    if w[0] == 'LAccess':
+        return '(IVQuery %s %s)' % fparts_term(w[1])
+    if w[0] == 'LFunction':
+        fx = w[1]
+        return '(IVCall F%s %s)' % (fx[2], ct.clist([impl_value_term(x) for x in ct.L(fx[1])]))
+    return 'IVOther'
+
+
+def impl_cclause_term(res):
+    if res[0] != 'Ok':
+        return {'Error': 'ICCError', 'Failure': 'ICCFailure'}.get(res[0], 'ICCOther')
+    ac = res[1][1]
+    aq, cmp_, w, custom, neg = ac[1], ac[2], ac[3], ac[4], ac[6]
+    w = w['O'] if isinstance(w, dict) and 'O' in w else w
+    wt = 'None' if w is None else '(Some %s)' % impl_value_term(w)
+    parts, all_ = fparts_term(aq)
+    return '(ICCOk %s %s %s O%s %s %s %s %d%%N)' % (ct.cbool(neg), parts, all_, cmp_[1], ct.cbool(cmp_[2]), wt, ct.ostr(custom), res[2])
+
+
+CALLS = ['count(b)', 'count( b )', 'count(b[*])', "count(b[ c == 1 ])", 'count(%v)', 'count(b, c)', 'count()', 'count (b)', 'count(b', 'count(b))', 'join(b[*], ",")', 'join(b, "," )', 'join(b)', 'join(b,",",c)',
+         'json_parse(b)', 'now()', 'now( )', 'now(1)', 'parse_int(b)', 'parse_float("1.5")', 'parse_string(1)', 'parse_boolean("true")', 'parse_char(b)', 'parse_epoch("2020-01-01T00:00:00Z")',
+         'regex_replace(b, "a", "c")', 'regex_replace(b, /a/, "c")', 'regex_replace(b,"a")', 'substring(b, 0, 2)', 'substring(b,0,2)', 'substring(b, 0)', 'to_lower(b)', 'to_upper(%v.x)', 'url_decode(b)',
+         'to_lower(to_upper(b))', 'join(to_lower(b[*]), "-")', 'count(parse_int(b[*]))', 'nosuch(b)', 'Count(b)', 'COUNT(b)', 'count(\n  b\n)', 'count(# c\n b)', 'count(b # c\n)', 'count(b,)', 'count(,b)',
+         'count("open)', 'count([1, 2])', 'count({a: 1})', 'substring("héllo", 1, 3)', 'count(b) <<m>>', 'count(b)x', 'é(b)', 'counté(b)']
+
+
+def call_clause_corpus(seed, n):
+    rng = random.Random(seed * 1511 + 14)
+    texts = []
+    for c in CALLS:
+        texts += ['a == ' + c, 'a in ' + c + ' <<m>>', 'not a >= ' + c, 'a ==' + c, 'a == ' + c + '\n', "a[ x == 1 ].y != " + c]
+    while len(texts) < n:
+        t = rng.choice(CL_NOTS) + rng.choice(CL_QUERIES[:12] + ["a[ b == 1 ].c"]) + ' ' + rng.choice(CL_OPS_BIN[:11]) + rng.choice([' ', ' ', '', '\n  ', ' # c\n '])
+        t += rng.choice(CALLS) + rng.choice(CL_MSGS) + rng.choice(CL_TAILS)
+        texts.append(t)
+        if rng.random() < 0.3:
+            texts.append(mutate(t, rng))
+    seen, out = set(), []
+    for t in texts:
+        if t not in seen:
+            seen.add(t); out.append(t)
+    return out
+
+
+def _run_generic(texts, wd, tag, op, header, obs, term_fn, other):
+    from . import vparse
+    res = impl.run_ops_parallel([{'op': op, 'text': t} for t in texts], wd, tag + '.' + op)
+    cands = sorted(set().union(*[vparse.regex_candidates(t) for t in texts])) if texts else []
+    cand_txt = []
+    for c in cands:
+        try:
+            cand_txt.append(c.decode('utf-8'))
+        except UnicodeDecodeError:
+            pass
+    rres = impl.run_ops_parallel([{'op': 'regex', 're': c, 'text': ''} for c in cand_txt], wd, tag + '.re') if cand_txt else []
+    valid = {}
+    for c, r in zip(cand_txt, rres):
+        rr = r.get('res')
+        valid[c] = bool(rr) and rr[0] == 'Ok'
+    cases, out = [], [None] * len(texts)
+    for i, (t, r) in enumerate(zip(texts, res)):
+        if 'res' not in r:
+            out[i] = (t, 'crash', r)
+            continue
+        mine = [c for c in cand_txt if c.encode('utf-8') in vparse.regex_candidates(t)] if '/' in t else []
+        table = ct.clist(['(%s, %s)' % (ct.cstr(c), ct.cbool(valid[c])) for c in mine])
+        rv = '(fun s => match assoc s %s with Some b => b | None => false end)' % table
+        try:
+            it = term_fn(r['res'])
+        except (ct.TranslateError, KeyError, IndexError, TypeError):
+            it = other
+        cases.append((i, '', '%s %s %s %s' % (obs, rv, ct.cstr(t), it)))
+        out[i] = (t, None, r['res'])
+    verdicts, errors = model.eval_cases(cases, wd, tag, header=header, per_file=120)
+    if errors:
+        raise ToolingError('model evaluation failed: %r' % (errors[:1],))
+    for i, _, _ in cases:
+        out[i] = (out[i][0], verdicts.get(i, 'NoModelOutput'), out[i][2])
+    return out
+
+
+def run_call_clauses(texts, wd, tag='ccparse'):
+    return _run_generic(texts, wd, tag, 'pclause', CC_HEADER, 'clause_c_obs', impl_cclause_term, 'ICCOther')
+
+
+def impl_let_c_term(res):
+    if res[0] != 'Ok':
+        return {'Error': 'ILCError', 'Failure': 'ILCFailure'}.get(res[0], 'ILCOther')
+    e = res[1]
+    return '(ILCOk %s %s %d%%N)' % (ct.cstr(ct.S(e[1])), impl_value_term(e[2]), res[2])
+
+
+def call_let_corpus(seed, n):
+    rng = random.Random(seed * 1013 + 14)
+    texts = []
+    for c in CALLS:
+        texts += ['let x = ' + c, 'let x := ' + c + '\n', 'let x=' + c, 'let x = ' + c + '\nrule r {']
+    while len(texts) < n:
+        t = 'let ' + rng.choice(LET_NAMES[:6]) + rng.choice(LET_EQS[:6]) + (rng.choice(CALLS) if rng.random() < 0.7 else rng.choice(LET_VALUES)) + rng.choice(LET_TAILS)
+        texts.append(t)
+        if rng.random() < 0.3:
+            texts.append(mutate(t, rng))
+    seen, out = set(), []
+    for t in texts:
+        if t not in seen:
+            seen.add(t); out.append(t)
+    return out
+
+
+def run_call_lets(texts, wd, tag='clparse'):
+    return _run_generic(texts, wd, tag, 'plet', CC_HEADER, 'let_c_obs', impl_let_c_term, 'ILCOther')
+
+
+def check_calls(ctx, tag, n):
+    """function calls: Model/CallParse.v (clauses with calls on the right, assignments of calls) against parser.rs through the hooks
+    `pclause` and `plet`: every built-in name with right and wrong numbers of arguments, nested calls, layout inside the parentheses,
+    unknown and wrongly-cased names, broken calls"""
+    stats = {}
+    for lab, texts, runner in (('clause', call_clause_corpus(ctx.seed, n), run_call_clauses), ('let', call_let_corpus(ctx.seed, max(300, n // 2)), run_call_lets)):
+        out = runner(texts, ctx.wd, tag + lab)
+        for t, v, r in out:
+            stats[v] = stats.get(v, 0) + 1
+            if v in ('PLAgree', 'PLAgreeReject', 'PLNotModelled'):
+                continue
+            ctx.failing('%s with a call %r: the parser answers %s, the model of the grammar says otherwise (%s)' % (lab, t[:80], json.dumps(r)[:200], v),
+                        {'class': 'call-grammar-correspondence', 'text': t, 'impl': r, 'verdict': v}, found=False)
+        ctx.coverage['evaluations'] += len(texts)
+    ctx.coverage['call_verdicts'] = stats
+    return stats.get('PLAgree', 0)
